@@ -23,6 +23,9 @@ Milestones(k) == CASE k = "join765" -> <<"ready", "finish", "join">>
                    \* the first backend becomes ready and is then lost during the configuration phase;
                    \* the player falls back to the next server of the try list, which becomes ready later
                    [] k = "fallback765" -> <<"ready", "kick", "ready", "finish", "join">>
+                   \* fault: the first backend dies while the queue is flushed to it (its login just
+                   \* succeeded); what was queued for it is gone with it; fallback to the next server
+                   [] k = "flushfail765" -> <<"failready", "ready", "finish", "join">>
                    [] k = "playq763" -> <<"hold", "switch", "ready", "join", "unhold">>
 
 VARIABLES kind, ms,      \* history kind, milestones passed
@@ -31,9 +34,10 @@ VARIABLES kind, ms,      \* history kind, milestones passed
           ready,         \* the backend is ready for direct delivery
           toBackend,     \* indices delivered to the backend, in order
           overflowed,    \* the player was disconnected for exceeding a cap
+          lost,          \* messages that went down with a failed backend
           h              \* the history (for export)
 
-mvars == <<kind, ms, sent, q, qbytes, ready, toBackend, overflowed, h>>
+mvars == <<kind, ms, sent, q, qbytes, ready, toBackend, overflowed, lost, h>>
 
 \* the client may send custom payloads once it left the login state; in a switch history
 \* only the messages of the new backend's configuration phase are looked at
@@ -44,10 +48,11 @@ CanSend == IF kind = "switch765" THEN ms >= 3
 ReadyAt == CASE kind \in {"join765", "join763"} -> 1
              [] kind = "playq763" -> 4
              [] kind = "fallback765" -> 3
+             [] kind = "flushfail765" -> 2
              [] OTHER -> 2
 
 MInit == /\ kind \in Kinds /\ ms = 0 /\ sent = <<>> /\ q = <<>> /\ qbytes = 0
-         /\ ready = FALSE /\ toBackend = <<>> /\ overflowed = FALSE /\ h = <<>>
+         /\ ready = FALSE /\ toBackend = <<>> /\ overflowed = FALSE /\ lost = 0 /\ h = <<>>
 
 ClientMsg(sz) ==
     /\ ~overflowed /\ CanSend /\ Len(sent) < MaxMsgs
@@ -61,7 +66,7 @@ ClientMsg(sz) ==
                      /\ UNCHANGED toBackend
                 ELSE /\ q' = Append(q, Len(sent) + 1) /\ qbytes' = qbytes + sz
                      /\ UNCHANGED <<toBackend, overflowed>>
-    /\ UNCHANGED <<kind, ms, ready>>
+    /\ UNCHANGED <<kind, ms, ready, lost>>
 
 \* the next milestone; passing ReadyAt flushes the queue and makes the backend ready, atomically
 Milestone ==
@@ -70,16 +75,20 @@ Milestone ==
     /\ h' = Append(h, Milestones(kind)[ms + 1])
     /\ IF ms + 1 = ReadyAt
          THEN /\ toBackend' = toBackend \o q /\ q' = <<>> /\ qbytes' = 0 /\ ready' = TRUE
-         ELSE UNCHANGED <<toBackend, q, qbytes, ready>>
+              /\ UNCHANGED lost
+         ELSE IF Milestones(kind)[ms + 1] = "failready"
+           THEN /\ lost' = lost + Len(q) /\ q' = <<>> /\ qbytes' = 0
+                /\ UNCHANGED <<toBackend, ready>>
+           ELSE UNCHANGED <<toBackend, q, qbytes, ready, lost>>
     /\ UNCHANGED <<kind, sent, overflowed>>
 
 MNext == (\E sz \in Sizes : ClientMsg(sz)) \/ Milestone
 MSpec == MInit /\ [][MNext]_mvars
 
 \* exactly once, in the order sent, queued ones before any later one
-InOrder == \A i \in 1..Len(toBackend) : toBackend[i] = i
-NoLoss == (~overflowed /\ ready) => Len(toBackend) + Len(q) = Len(sent) /\ q = <<>>
-Queued == ~overflowed => (\A i \in 1..Len(q) : q[i] = Len(toBackend) + i)
+InOrder == \A i \in 1..Len(toBackend) : toBackend[i] = lost + i
+NoLoss == (~overflowed /\ ready) => lost + Len(toBackend) + Len(q) = Len(sent) /\ q = <<>>
+Queued == ~overflowed => (\A i \in 1..Len(q) : q[i] = lost + Len(toBackend) + i)
 Bounded == Len(q) <= MaxCount /\ qbytes <= MaxBytes
 OverflowOnlyWhenFull == overflowed => ~ready
 
